@@ -27,10 +27,12 @@ Inners == Loops \cup Wraps \cup {"closure"}
 \* as a field name of another value - none of which is a use of the variable
 \* unwrapChain2 / unwrapChainLines: two .unwrap() calls in one method chain (on one line / one call per line);
 \* expectThenUnwrap: `.expect(..)` and `.unwrap()` in one chain
-Items  == {"unwrap", "expect", "unwrapChain2", "unwrapChainLines", "expectThenUnwrap", "clonePlain", "cloneChain", "cloneLetUnused", "cloneLetMentioned", "cloneWhileCond",
+\* cloneLetShadowed: `let c = d.clone(); let d = d.trim().len();` - the later `let` rebinds the source's name, but its
+\* initializer still reads the OLD binding: the source is used after the clone, exactly as in clonePlain
+Items  == {"unwrap", "expect", "unwrapChain2", "unwrapChainLines", "expectThenUnwrap", "clonePlain", "cloneLetShadowed", "cloneChain", "cloneLetUnused", "cloneLetMentioned", "cloneWhileCond",
            "blockFs", "blockFsUse", "blockSleep", "blockNet"}
 LinterOf(it) == CASE it \in {"unwrap", "expect", "unwrapChain2", "unwrapChainLines", "expectThenUnwrap"} -> "unwrap-abuse"
-                  [] it \in {"clonePlain", "cloneChain", "cloneLetUnused", "cloneLetMentioned", "cloneWhileCond"} -> "clone-abuse"
+                  [] it \in {"clonePlain", "cloneLetShadowed", "cloneChain", "cloneLetUnused", "cloneLetMentioned", "cloneWhileCond"} -> "clone-abuse"
                   [] OTHER -> "blocking-async"
 
 \* "asyncfn": an `async fn` ITEM declared in the body of the function (possibly with a loop inside it); the call then
@@ -52,7 +54,7 @@ Exempt(s, o) == InTest(s) /\ o.allowInTests
 Reported(s, o) ==
     CASE s.item \in {"unwrap", "unwrapChain2", "unwrapChainLines", "expectThenUnwrap"} -> ~Exempt(s, o)
       [] s.item = "expect" -> ~o.allowExpect /\ ~Exempt(s, o)
-      [] s.item = "clonePlain"     -> InLoop(s) /\ o.detectLoop /\ ~Exempt(s, o)
+      [] s.item \in {"clonePlain", "cloneLetShadowed"} -> InLoop(s) /\ o.detectLoop /\ ~Exempt(s, o)
       [] s.item = "cloneWhileCond" -> o.detectLoop /\ ~Exempt(s, o)
       [] s.item = "cloneChain"     -> ((InLoop(s) /\ o.detectLoop) \/ o.detectChain) /\ ~Exempt(s, o)
       [] s.item \in {"cloneLetUnused", "cloneLetMentioned"} -> ((InLoop(s) /\ o.detectLoop) \/ o.detectUnnecessary) /\ ~Exempt(s, o)
